@@ -458,7 +458,7 @@ func (e *Engine) confirm(v *Violation, path string) (bool, string) {
 }
 
 func (e *Engine) replayEngine(rf *ReplayFile, m *Model) (bool, string) {
-	sum := e.explore(rf.Harness, ExploreCfg{Workers: 1, Timeout: 10 * time.Second, Solvers: []SolverKind{Z3}, Concrete: m, SinglePath: true, ConcretePicks: rf.Picks})
+	sum := e.explore(rf.Harness, ExploreCfg{Workers: 1, Timeout: 10 * time.Second, Solvers: []SolverKind{Z3}, Concrete: m, SinglePath: true, ConcretePicks: append([]int{}, rf.Picks...)})
 	for _, v := range sum.Violations {
 		if v.ID == rf.AssertID {
 			return true, "same assertion fails"
